@@ -18,11 +18,15 @@ struct MI { mpfr_t lo, hi; bool ok;
   ~MI() { mpfr_clear(lo); mpfr_clear(hi); }
   static MI bad() { MI m; m.ok = false; return m; }
   static MI of(double a, double b) { MI m; mpfr_set_d(m.lo, a, MPFR_RNDD); mpfr_set_d(m.hi, b, MPFR_RNDU); if (!(a == a) || !(b == b) || std::isinf(a) || std::isinf(b)) m.ok = false; return m; }
-  bool valid() const { return ok && !mpfr_nan_p(lo) && !mpfr_nan_p(hi) && !mpfr_inf_p(lo) && !mpfr_inf_p(hi) && mpfr_lessequal_p(lo, hi); }
+  // (magnitudes beyond the binary64 range are not an oracle for anything, and elementary functions of such arguments cost MPFR
+  //  millions of bits of range reduction: they make the value invalid)
+  static bool tame(mpfr_srcptr x) { return mpfr_zero_p(x) || mpfr_get_exp(x) <= 1030; }
+  bool valid() const { return ok && !mpfr_nan_p(lo) && !mpfr_nan_p(hi) && !mpfr_inf_p(lo) && !mpfr_inf_p(hi) && mpfr_lessequal_p(lo, hi) && tame(lo) && tame(hi); }
 };
 
 typedef int (*mp1)(mpfr_ptr, mpfr_srcptr, mpfr_rnd_t);
-inline MI mi_mono_inc(mp1 f, const MI& a) { if (!a.valid()) return MI::bad(); MI r; f(r.lo, a.lo, MPFR_RNDD); f(r.hi, a.hi, MPFR_RNDU); return r; }
+inline bool mi_small_arg(const MI& a) { return mpfr_cmp_d(a.hi, 1e6) < 0 && mpfr_cmp_d(a.lo, -1e6) > 0; }
+inline MI mi_mono_inc(mp1 f, const MI& a) { if (!a.valid()) return MI::bad(); if ((f == (mp1)mpfr_exp || f == (mp1)mpfr_sinh || f == (mp1)mpfr_cosh) && !mi_small_arg(a)) return MI::bad(); MI r; f(r.lo, a.lo, MPFR_RNDD); f(r.hi, a.hi, MPFR_RNDU); return r; }
 inline MI mi_mono_dec(mp1 f, const MI& a) { if (!a.valid()) return MI::bad(); MI r; f(r.lo, a.hi, MPFR_RNDD); f(r.hi, a.lo, MPFR_RNDU); return r; }
 inline MI mi_neg(const MI& a) { if (!a.valid()) return MI::bad(); MI r; mpfr_neg(r.lo, a.hi, MPFR_RNDD); mpfr_neg(r.hi, a.lo, MPFR_RNDU); return r; }
 inline MI mi_add(const MI& a, const MI& b) { if (!a.valid() || !b.valid()) return MI::bad(); MI r; mpfr_add(r.lo, a.lo, b.lo, MPFR_RNDD); mpfr_add(r.hi, a.hi, b.hi, MPFR_RNDU); return r; }
